@@ -37,7 +37,7 @@ def extract_python_constants(content: str) -> list[ConstantInfo]:
     """
     try:
         tree = ast.parse(content)
-    except SyntaxError:
+    except (SyntaxError, RecursionError, MemoryError):
         return []
     constants: list[ConstantInfo] = []
     for node in tree.body:
